@@ -17,7 +17,17 @@ RULE = (
     "depth-2 x depth-2 pairs (thorough: all) and random depth-3 pairs; Values built through "
     "type_from_runtime(evaluate(T)) in both spellings and by direct construction (KnownValue of every universe "
     "object, SequenceValue/DictIncompleteValue/TypedDictValue/SubclassValue from literals); plus law instances over "
-    "random triples. Non-trivial = accepted pair with A != B structurally and >=1 universe object inhabiting B, or a "
+    "random triples; plus (W) WIDE unions (tygen.wide_unions: 3/9/10/11/14 flattened members, hashable literal members "
+    "of int/str/mixed families with optional ==-equal cross-type groups, optionally one class or "
+    "parametrised/structural member such as tuple[int, ...], list[int], dict[str, int], a TypedDict; member-wise and "
+    "merged Literal[...] spellings; plus directly built MultiValuedValues with an unhashable literal member) crossed in "
+    "both directions with every depth<=1 term and every KnownValue of a universe object, with the union laws "
+    "instantiated member by member; plus (G) user-defined generic classes of the prelude (a 2-parameter base; "
+    "subclasses passing their own parameters to the base in the same / swapped / shifted position, re-using the "
+    "base's TypeVar objects or fresh ones, a twice-swapping chain, a duplicated parameter, a parameter nested in the "
+    "base argument, subclasses of Dict/List) specialised over {int, str, float, bool}: all G x G pairs and G x "
+    "depth<=1 pairs, judged against instances of those classes (universe.UG; o in G[X..] iff isinstance(o, G) and "
+    "the attributes declared with each parameter are in the corresponding argument). Non-trivial = accepted pair with A != B structurally and >=1 universe object inhabiting B, or a "
     "law instance with union arity >= 2; distinct by (render A, render B, law)."
 )
 ASSUMPTIONS = [
@@ -28,16 +38,23 @@ ASSUMPTIONS = [
     "compatible element type (membership relaxed accordingly when B mentions a variadic tuple); L3 mock objects "
     "(not in the vocabulary)",
     "NewType: plain supertype instances are members at run time, so pairs whose A mentions a NewType are not judged for soundness",
+    "user-defined generic classes: membership of an instance in G[X1..Xn] is decided by vp.ty.GEN_VIEWS (attributes "
+    "declared with each own type parameter); the classes' constructors fill base-class attributes as their headers declare",
 ]
 FLOORS = {
-    "quick": {"distinct_nontrivial": 20000, "pairs": 200000, "accepted_pairs": 15000, "law_instances": 20000, "e2e_lines": 1000},
-    "thorough": {"distinct_nontrivial": 100000, "pairs": 600000, "law_instances": 100000},
+    "quick": {"distinct_nontrivial": 20000, "pairs": 200000, "accepted_pairs": 15000, "law_instances": 20000, "e2e_lines": 1000,
+              "wide_union_terms": 50, "wide_pairs": 16000, "wide_accepts_container_literal_checks": 3000, "generic_pairs": 15000, "generic_accepted_cross_class": 190},
+    "thorough": {"distinct_nontrivial": 100000, "pairs": 600000, "law_instances": 100000,
+                 "wide_union_terms": 50, "wide_pairs": 16000, "wide_accepts_container_literal_checks": 3000, "generic_pairs": 15000, "generic_accepted_cross_class": 190},
 }
-BARE_GENERICS = (list, dict, set, frozenset, tuple, type)
+BARE_GENERICS = (list, dict, set, frozenset, tuple, type, *ty.GEN_VIEWS)
+POOL = universe.U + universe.UG  # bit j of a Term's masks is POOL[j]; the UG part is filled lazily (with_generic_objects)
+NU = len(universe.U)
+WIDE = 10
 
 
 class Term:
-    __slots__ = ("t", "value", "text", "memb", "nonmemb", "memb_l2", "kinds", "bare", "idx")
+    __slots__ = ("t", "value", "text", "memb", "nonmemb", "memb_l2", "kinds", "bare", "idx", "_g")
 
 
 def build_terms(ctx):
@@ -60,23 +77,42 @@ def make_term(t: Ty, v, text: str) -> Term:
     tm = Term()
     tm.t, tm.value, tm.text = t, v, text
     memb = nonmemb = memb_l2 = 0
+    tm._g = False
     for j, it in enumerate(universe.U):
         m = ty.member(it.obj, t)
         if m is True:
             memb |= 1 << j
         elif m is False:
             nonmemb |= 1 << j
-    ty.LENIENT_FIXED_TUPLES = True
-    try:
-        nonmemb_l2 = 0
-        for j, it in enumerate(universe.U):
-            if ty.member(it.obj, t) is False:
-                nonmemb_l2 |= 1 << j
-    finally:
-        ty.LENIENT_FIXED_TUPLES = False
-    tm.memb, tm.nonmemb, tm.memb_l2 = memb, nonmemb, nonmemb_l2
     tm.kinds = ty.kinds(t)
+    if tm.kinds & {"Tuple", "MixTuple", "SeqPat", "TypedDict"}:
+        ty.LENIENT_FIXED_TUPLES = True
+        try:
+            nonmemb_l2 = 0
+            for j, it in enumerate(universe.U):
+                if ty.member(it.obj, t) is False:
+                    nonmemb_l2 |= 1 << j
+        finally:
+            ty.LENIENT_FIXED_TUPLES = False
+    else:
+        nonmemb_l2 = nonmemb  # the leniency only changes membership in fixed-length tuple terms
+    tm.memb, tm.nonmemb, tm.memb_l2 = memb, nonmemb, nonmemb_l2
     tm.bare = _has_bare(t)
+    return tm
+
+
+def with_generic_objects(tm: Term) -> Term:
+    """Extend the masks to the instances of user-defined generic classes (universe.UG). Only pairs with a Gen term
+    on either side are judged against them (the L2 tuple leniency does not concern these objects)."""
+    if not tm._g:
+        tm._g = True
+        for j, it in enumerate(universe.UG):
+            m = ty.member(it.obj, tm.t)
+            if m is True:
+                tm.memb |= 1 << (NU + j)
+            elif m is False:
+                tm.nonmemb |= 1 << (NU + j)
+                tm.memb_l2 |= 1 << (NU + j)
     return tm
 
 
@@ -146,11 +182,15 @@ def accepts(a, b, checker) -> bool:
 
 def first_bit_item(mask: int):
     j = (mask & -mask).bit_length() - 1
-    return universe.U[j]
+    return POOL[j]
 
 
 def pair_key_desc(tm: Term) -> str:
     t = tm.t
+    if t.kind == "Union" and len(t.args) >= WIDE:
+        return "Union:wide"
+    if t.kind == "Gen":
+        return f"Gen:{gen_role(t.extra)}"
     if t.kind == "Cls":
         return f"Cls:{t.extra.__name__}"
     if t.kind == "Lit":
@@ -168,6 +208,19 @@ def pair_key_desc_t(t: Ty) -> str:
     return t.kind
 
 
+def gen_role(cls) -> str:
+    """How the class hands its own type parameters to its generic base (structural, not the class name)."""
+    from vp import prelude as P
+
+    return {
+        P.GPair: "base", P.GBox: "base", P.GSame: "same-position", P.GList: "same-position",
+        P.GFlip: "permuted-same-typevars", P.GFlipSub: "permuted-same-typevars", P.GShift: "permuted-same-typevars",
+        P.GIntFirst: "permuted-same-typevars", P.GRevDict: "permuted-same-typevars",
+        P.GFlipFresh: "permuted-fresh-typevars", P.GShiftFresh: "permuted-fresh-typevars",
+        P.GDup: "duplicated", P.GListBox: "nested",
+    }.get(cls, "other")
+
+
 INFERRED_ONLY_AS_TARGET = ("DictPat",)
 
 
@@ -178,6 +231,56 @@ def target_ok(A: Term) -> bool:
     if A.t.kind == "SeqPat" and (A.t.extra is not tuple or any(m for m, _ in A.t.args[0])):
         return False
     return True
+
+
+def _member_terms(tm: Term) -> list:
+    """A union term's members as terms: pyanalyze's own flattened member values, paired with the written member
+    terms when they line up one to one (otherwise with a structural reading of the value). Only used to attribute
+    an already established violation to the smallest pair that shows it."""
+    vals = getattr(tm.value, "vals", None)
+    if tm.t.kind != "Union" or not vals:
+        return []
+    if len(vals) == len(tm.t.args):
+        tys = list(tm.t.args)
+    else:
+        tys = [ty.from_value(v) for v in vals]
+    out = []
+    for t, v in zip(tys, vals):
+        m = Term()
+        m.t, m.value, m.text, m.kinds, m.bare, m._g = t, v, str(v), ty.kinds(t), _has_bare(t), True
+        m.memb = m.nonmemb = m.memb_l2 = 0
+        out.append(m)
+    return out
+
+
+def narrow_to_members(A: Term, B: Term, u, checker):
+    """(A accepts B, u in B, u not in A) -> the member of B that holds u and the member of A that accepts it without
+    holding u, when such members exist; a defect of the union handling itself stays at the union."""
+    for _ in range(3):
+        changed = False
+        for b in _member_terms(B):
+            if ty.member(u.obj, b.t) is True:
+                try:
+                    if accepts(A.value, b.value, checker):
+                        B, changed = b, True
+                        break
+                except Exception:  # noqa: BLE001
+                    pass
+        for a in _member_terms(A):
+            if ty.member(u.obj, a.t) is False:
+                try:
+                    if accepts(a.value, B.value, checker):
+                        A, changed = a, True
+                        break
+                except Exception:  # noqa: BLE001
+                    pass
+        if not changed:
+            break
+    return A, B
+
+
+def _dict_like(t: Ty) -> bool:
+    return t.kind in ("Dict", "Map") or (t.kind == "Gen" and issubclass(t.extra, dict))
 
 
 def soundness_mechanism(A: Term, B: Term, u) -> str:
@@ -191,13 +294,31 @@ def soundness_mechanism(A: Term, B: Term, u) -> str:
         return "typeddict-accepted-by-dict-or-mapping-with-value-type"
     if A.t.kind in ("Tuple", "SeqPat", "MixTuple") and B.t.kind == "VarTuple":
         return "fixed-tuple<-variadic|element-type-not-accepted-by-every-position"
-    if A.t.kind == "TypedDict" and B.t.kind in ("Dict", "Map") and isinstance(u.obj, dict):
+    if A.t.kind == "TypedDict" and _dict_like(B.t) and isinstance(u.obj, dict):
         return "typeddict-accepts-plain-dict-of-str-keys"
     if A.t.kind == "TypedDict" and isinstance(u.obj, dict) and any(not isinstance(k, str) for k in u.obj):
         return "typeddict-accepts-dict-literal-with-non-str-key"
     if A.t.kind == "Lit" and B.t.kind == "Lit" and isinstance(u.obj, (list, tuple, dict, set, frozenset)):
         return "literal-container-equality-crosses-bool-int"
+    if A.t.kind == "Union" and len(A.t.args) >= WIDE:
+        if B.t.kind == "Lit":
+            same_origin = any(_origin_class(a) is type(u.obj) for a in A.t.args)
+            shape = "container" if isinstance(u.obj, (list, tuple, dict, set, frozenset)) else "scalar"
+            return f"Union:wide<-Lit:{shape}{':member-with-same-origin-class' if same_origin else ''}"
+        return f"Union:wide<-{B.t.kind}"
+    if A.t.kind == "Gen" and B.t.kind == "Gen":
+        # what matters is how B's class hands its parameters to its bases, and whether a base had to be consulted
+        return f"Gen:{'same-class' if A.t.extra is B.t.extra else 'via-base'}<-{pair_key_desc(B)}"
+    if A.t.kind == "Gen" or B.t.kind == "Gen":
+        da = pair_key_desc(A) if A.t.kind == "Gen" else A.t.kind
+        db = pair_key_desc(B) if B.t.kind == "Gen" else B.t.kind
+        return f"{da}<-{db}"
     return f"{A.t.kind}<-{B.t.kind}"
+
+
+def _origin_class(t: Ty):
+    return {"List": list, "Set": set, "FrozenSet": frozenset, "Dict": dict, "TypedDict": dict, "Tuple": tuple,
+            "VarTuple": tuple, "MixTuple": tuple}.get(t.kind)
 
 
 def judge_pair(ctx, A: Term, B: Term, checker, record=True):
@@ -212,6 +333,9 @@ def judge_pair(ctx, A: Term, B: Term, checker, record=True):
     ctx.count("pairs")
     if acc:
         ctx.count("accepted_pairs")
+        if "Gen" in A.kinds or "Gen" in B.kinds:
+            with_generic_objects(A)
+            with_generic_objects(B)
         excused = None
         if not target_ok(A):
             excused = "inferred-only-target"
@@ -231,8 +355,9 @@ def judge_pair(ctx, A: Term, B: Term, checker, record=True):
                 ctx.histo("accepted_by_kind", f"{A.t.kind}<-{B.t.kind}")
             if bad:
                 u = first_bit_item(bad)
+                A1, B1 = narrow_to_members(A, B, u, checker)
                 ctx.violation(
-                    f"soundness|{soundness_mechanism(A, B, u)}",
+                    f"soundness|{soundness_mechanism(A1, B1, u)}",
                     f"{A.text} accepts {B.text}, but {u.src} belongs to the latter and not to the former",
                     {"law": "soundness", "A": A.text, "B": B.text, "object": u.src},
                 )
@@ -300,6 +425,86 @@ def union_laws(ctx, A: Term, B1: Term, B2: Term, checker, raw: bool) -> None:
         )
 
 
+def wide_terms(ctx) -> list:
+    from pyanalyze.annotations import type_from_runtime
+    from pyanalyze.value import KnownValue, MultiValuedValue, TypedValue
+
+    out = []
+    wrng = ctx.rng.__class__(f"C04-wide/{ctx.seed}")
+    for i, t in enumerate(tygen.wide_unions(wrng, ctx.pick(40, 1500))):
+        try:
+            v = type_from_runtime(ty.evaluate(t, i % 2))
+        except Exception:  # noqa: BLE001
+            ctx.count("terms_not_buildable")
+            continue
+        out.append(make_term(t, v, ty.render(t, i % 2)))
+    # built directly: a literal member that is not hashable (no annotation can spell it)
+    for n in (9, 10, 13):
+        lits = [1, True, *range(3, n)]
+        for tail, tail_t, tail_txt in (
+            (KnownValue([1]), ty.Lit([1]), "KnownValue([1])"),
+            (KnownValue({"a": 1}), ty.Lit({"a": 1}), "KnownValue({'a': 1})"),
+        ):
+            for extra_v, extra_t, extra_txt in ((None, None, ""), (TypedValue(str), ty.Cls(str), ", str")):
+                members_t = [ty.Lit(x) for x in lits] + [tail_t] + ([extra_t] if extra_t is not None else [])
+                members_v = [KnownValue(x) for x in lits] + [tail] + ([extra_v] if extra_v is not None else [])
+                out.append(make_term(ty.UnionOf(members_t), MultiValuedValue(members_v),
+                                     f"MultiValuedValue({len(members_v)} members: 1, True, 3.., {tail_txt}{extra_txt})"))
+    return out
+
+
+def generic_terms(ctx) -> list:
+    from pyanalyze.annotations import type_from_runtime
+
+    out = []
+    for i, t in enumerate(tygen.generic_terms()):
+        try:
+            v = type_from_runtime(ty.evaluate(t, i % 2))
+        except Exception:  # noqa: BLE001
+            ctx.count("terms_not_buildable")
+            continue
+        out.append(make_term(t, v, ty.render(t, i % 2)))
+    return out
+
+
+def wide_member_laws(ctx, W: Term, X: Term, w_accepts_x, checker) -> None:
+    """The two union laws with the union's members taken one at a time (W.value.vals are pyanalyze's own flattened
+    members): W accepts whatever one member accepts; W is accepted by X exactly when each member is."""
+    vals = W.value.vals
+    ctx.count("law_instances", 2)
+    if w_accepts_x is False:
+        for m in vals:
+            if accepts(m, X.value, checker):
+                x_desc = pair_key_desc(X)
+                if X.t.kind == "Lit" and _cross_type_equal(X.t.extra.v, W.t):
+                    x_desc = "Lit:cross-type-equal-to-another-member"
+                ctx.violation(
+                    f"union-lhs|rejected-but-member-accepts|{pair_key_desc(W)}<-{x_desc}",
+                    f"{W.text} rejects {X.text} although its member {m} accepts it",
+                    {"law": "wide-laws", "A": W.text, "B": X.text},
+                )
+                break
+    whole = accepts(X.value, W.value, checker)
+    parts = all(accepts(X.value, m, checker) for m in vals)
+    if whole != parts:
+        ctx.violation(
+            f"union-rhs|{'accepted-but-member-rejected' if whole else 'rejected-but-members-accepted'}|{pair_key_desc(X)}<-Union:{'wide' if len(vals) >= WIDE else 'narrow'}",
+            f"{X.text} <- {W.text} is {'accepted' if whole else 'rejected'} but memberwise gives {'accept' if parts else 'reject'}",
+            {"law": "wide-laws", "A": W.text, "B": X.text},
+        )
+
+
+def _cross_type_equal(o, t: Ty) -> bool:
+    for a in t.args:
+        if isinstance(a, Ty) and a.kind == "Lit" and type(a.extra.v) is not type(o):
+            try:
+                if a.extra.v == o and hash(a.extra.v) == hash(o):
+                    return True
+            except Exception:  # noqa: BLE001
+                pass
+    return False
+
+
 def e2e_batch(ctx, batch, checker) -> None:
     """`def f(b: B): y: A = b` diagnosed  <=>  A rejects B through the API."""
     lines = ["from vp.prelude import *", "import typing"]
@@ -331,7 +536,7 @@ def e2e_batch(ctx, batch, checker) -> None:
 
 
 def annotation_expressible(tm: Term) -> bool:
-    return not tm.text.startswith(("KnownValue(", "SequenceValue(", "DictIncompleteValue(", "TypedDictValue(", "SubclassValue("))
+    return not tm.text.startswith(("KnownValue(", "MultiValuedValue(", "SequenceValue(", "DictIncompleteValue(", "TypedDictValue(", "SubclassValue("))
 
 
 def shard(ctx) -> None:
@@ -385,6 +590,48 @@ def shard(ctx) -> None:
             acc = judge_pair(ctx, A, B, checker)
             if acc is not None and rng.random() < 0.02:
                 e2e.append((A, B, acc))
+    # (W) wide unions x (depth<=1 terms + every KnownValue), both directions, laws member by member
+    wide = wide_terms(ctx)
+    if ctx.shard == 0:
+        ctx.count("wide_union_terms", sum(1 for W in wide if len(W.value.vals) >= WIDE))
+    for W in wide:
+        is_wide = len(W.value.vals) >= WIDE
+        for X in small:
+            idx += 1
+            if not ctx.mine(idx):
+                continue
+            acc = judge_pair(ctx, W, X, checker)
+            judge_pair(ctx, X, W, checker)
+            ctx.count("wide_pairs", 2 if is_wide else 0)
+            if is_wide and X.t.kind == "Lit" and isinstance(X.t.extra.v, (list, tuple, dict, set, frozenset)):
+                ctx.count("wide_accepts_container_literal_checks")
+                ctx.histo("wide_vs_container_literal", f"{type(X.t.extra.v).__name__}:{'accepted' if acc else 'rejected'}")
+            wide_member_laws(ctx, W, X, acc, checker)
+            if acc is not None and annotation_expressible(X) and annotation_expressible(W) and rng.random() < 0.004:
+                e2e.append((W, X, acc))
+    # (G) user-defined generic classes: all G x G, and G x depth<=1 in both directions
+    gens = generic_terms(ctx)
+    d1 = terms[:n1]
+    for A in gens:
+        for B in gens + d1:
+            idx += 1
+            if not ctx.mine(idx):
+                continue
+            acc = judge_pair(ctx, A, B, checker)
+            ctx.count("generic_pairs")
+            if acc and B.t.kind == "Gen" and A.t.extra is not B.t.extra and B.memb:
+                ctx.count("generic_accepted_cross_class")
+                ctx.histo("generic_accepted", f"{pair_key_desc(A)}<-{pair_key_desc(B)}")
+            if acc is not None and rng.random() < 0.01:
+                e2e.append((A, B, acc))
+        for B in d1:
+            idx += 1
+            if ctx.mine(idx):
+                judge_pair(ctx, B, A, checker)
+                ctx.count("generic_pairs")
+    for i, T in enumerate(gens + wide):
+        if ctx.mine(i):
+            fixed_laws(ctx, T, checker)
     # (3) union laws over random triples
     for _ in range(ctx.pick(3000, 20000)):
         A, B1, B2 = rng.choice(allterms), rng.choice(allterms), rng.choice(allterms)
@@ -407,8 +654,18 @@ def _term_by_text(text: str):
 
     if not _TERM_CACHE:
         ctx = Ctx(ID, "quick", 0, 0, 1)
-        for tm in build_terms(ctx) + direct_terms(ctx):
+        for tm in build_terms(ctx) + direct_terms(ctx) + generic_terms(ctx) + wide_terms(ctx):
             _TERM_CACHE[tm.text] = tm
+    if text not in _TERM_CACHE and not text.startswith(("KnownValue(", "MultiValuedValue(", "SequenceValue(", "DictIncompleteValue(", "TypedDictValue(", "SubclassValue(")):
+        # a sampled term (e.g. a wide union of another seed): rebuild it from its annotation text
+        from pyanalyze.annotations import type_from_runtime
+        from vp.props.c03 import _find_ty
+
+        try:
+            t = _find_ty(text)
+            _TERM_CACHE[text] = make_term(t, type_from_runtime(eval(text, dict(ty.eval_ns()))), text)
+        except Exception:  # noqa: BLE001
+            return None
     return _TERM_CACHE.get(text)
 
 
@@ -434,6 +691,11 @@ def replay(witness):
         if B1 is None or B2 is None:
             return None
         union_laws(ctx, A, B1, B2, checker, raw=witness.get("raw", False))
+    elif law == "wide-laws":
+        B = _term_by_text(witness["B"])
+        if B is None:
+            return None
+        wide_member_laws(ctx, A, B, accepts(A.value, B.value, checker), checker)
     elif law == "e2e":
         B = _term_by_text(witness["B"])
         if B is None:
